@@ -15,7 +15,10 @@ use crate::{
     GDErrorKind,
     GDResult,
 };
+#[cfg(not(gamedig_verif))]
 use std::collections::HashMap;
+#[cfg(gamedig_verif)]
+use crate::verif_hook::collections::HashMap;
 use std::net::SocketAddr;
 
 /// Send status request, and parse response into HashMap.
